@@ -3,6 +3,7 @@
   does on the node's children — start tag, empty-element tag, end tag, character-data runs,
   comments and PIs.
 -/
+import XotModel.Lemmas.ParseQName
 import XotModel.Lemmas.ParseSpellStart
 
 namespace XotModel
@@ -80,14 +81,15 @@ def Builder.opened (b : Builder) (name : Str) (attrs : List (Str × Str)) (sp : 
     seenIds := b.seenIds, idNodes := b.idNodes, spans := sp, openPrefixes := [] :: b.openPrefixes }
 
 theorem run_start (b : Builder) (hr : Ready b) (name : StrSpan) (pstart : Nat) (junk : StrSpan) (attrs : List SAttr)
-    (hw : attrsWell attrs) (tail : List Token) (lexErr : Option Nat) :
+    (hw : attrsWell attrs) (hps : pstart = 0) (tail : List Token) (lexErr : Option Nat) :
     ∃ b2 : Builder, b2.eb = some { (ElementBuilder.new ⟨[], pstart⟩ name) with attributes := attrs.map SAttr.builder } ∧
       b2.env = b.env ∧ b2.cur = b.cur ∧ b2.parents = b.parents ∧ b2.nsStack = b.nsStack ∧
       b2.seenIds = b.seenIds ∧ b2.idNodes = b.idNodes ∧ b2.spans = b.spans ∧ b2.openPrefixes = b.openPrefixes ∧
       b.run (.elementStart ⟨[], pstart⟩ name junk :: (attrs.map SAttr.token ++ tail)) lexErr = b2.run tail lexErr := by
   refine ⟨{ b with eb := some { (ElementBuilder.new ⟨[], pstart⟩ name) with attributes := attrs.map SAttr.builder } },
     rfl, rfl, rfl, rfl, rfl, rfl, rfl, rfl, rfl, ?_⟩
-  simp only [Builder.run, Builder.step]
+  have hbc : (⟨[], pstart⟩ : StrSpan).bareColon = false := by rw [hps]; rfl
+  simp only [Builder.run, Builder.step, hbc, Bool.false_eq_true, if_false]
   have := run_attrs tail lexErr attrs (b.element ⟨[], pstart⟩ name) (ElementBuilder.new ⟨[], pstart⟩ name) rfl hw.1
     (fun ab hab => by simp [ElementBuilder.new] at hab) (by simpa [ElementBuilder.new] using hw.2)
   rw [this]
